@@ -631,13 +631,24 @@ int main(int argc, char** argv)
             while (z.wsize() == before) std::this_thread::sleep_for(std::chrono::microseconds{50});
             flushing.push_back(&z);
           }
+      bool stopped = false;
+      if (mode == "stop")
       {
-        std::unique_lock<std::mutex> l(s_mx);
-        long const r0 = s_rloads;
-        s_cv.wait(l, [&] { return s_rloads >= r0 + n; });
-        s_policy = {"1:R:load"};
+        // `drain n stop`: instead of further iterations X calls Backend::stop() (wait_for_queues_to_empty_before_exit): everything the
+        // new threads logged - their calls have returned - must be written when it returns
+        X.run(5);
+        stopped = true;
       }
-      { std::unique_lock<std::mutex> l(s_mx); s_cv.wait(l, [] { return s_parked_at[1]; }); }      // parked again: its state can be read
+      else
+      {
+        {
+          std::unique_lock<std::mutex> l(s_mx);
+          long const r0 = s_rloads;
+          s_cv.wait(l, [&] { return s_rloads >= r0 + n; });
+          s_policy = {"1:R:load"};
+        }
+        { std::unique_lock<std::mutex> l(s_mx); s_cv.wait(l, [] { return s_parked_at[1]; }); }      // parked again: its state can be read
+      }
       // A request behind a delivered statement has been processed in those iterations (its flag is set): the call returns, wait for
       // it. If a statement of a new thread is still unwritten, its context was never read: the calls that have not returned are stuck.
       long stuck = 0;
@@ -645,7 +656,7 @@ int main(int argc, char** argv)
       else for (auto* z : flushing) { std::lock_guard<std::mutex> l(z->mx); if (!z->ack) ++stuck; }
       emit("{\"e\":\"quiet\",\"cache\":" + std::to_string(cache_size()) + ",\"delivered\":" + std::to_string(g_delivered.load()) +
            ",\"zlogged\":" + std::to_string(zlogged()) + ",\"drops\":" + std::to_string(s_xdrops) +
-           ",\"reported\":" + std::to_string(g_reported.load()) + ",\"xcalls\":" + std::to_string(X.committed) + ",\"flushstuck\":" + std::to_string(stuck) + "}");
+           ",\"reported\":" + std::to_string(g_reported.load()) + ",\"xcalls\":" + std::to_string(X.committed) + ",\"flushstuck\":" + std::to_string(stuck) + ",\"stopped\":" + (stopped ? "true" : "false") + "}");
     }
     else if (c == "end") break;
   }
